@@ -3,6 +3,8 @@
 package main
 
 import (
+	"strconv"
+	"regexp"
 	"time"
 	"encoding/binary"
 	"bytes"
@@ -43,6 +45,10 @@ type FilePlan struct {
 	// plan stays small); such a run saves and loads the file a few times only
 	// simulated time that passes between the last announcement and the save,
 	// and between the save and the load (seconds): hours, days
+	// Gen2Skew: seconds added to every timestamp in the saved file before the
+	// second generation loads it (the file was written by a host whose clock
+	// was ahead or behind, or the clock was set between the save and the start)
+	Gen2Skew int64 `json:"gen2_skew,omitempty"`
 	AgeSec  int64 `json:"age_sec,omitempty"`
 	DownSec int64 `json:"down_sec,omitempty"`
 	Bulk    int   `json:"bulk,omitempty"`
@@ -129,6 +135,8 @@ type fileRun struct {
 	Kinds    map[string]int
 	Steps    uint64
 }
+
+var reTimestamp = regexp.MustCompile(`"Timestamp":-?\d+`)
 
 // structEdits are structure-level corruptions of the parsed document.
 var structEdits = []string{"cache-null", "cache-empty", "cache-short", "cache-long", "shard-null", "templates-null", "shardno-wrong", "shardno-string",
@@ -407,16 +415,33 @@ func runCacheFile(p *FilePlan, ch *simrt.Choices) *fileRun {
 						find("panic-second-generation", fmt.Sprint(r), fmt.Sprintf("panic in the second generation: %v", r))
 					}
 				}()
+				if p.Gen2Skew != 0 {
+					skewed := reTimestamp.ReplaceAllFunc(valid, func(m []byte) []byte {
+						n, _ := strconv.ParseInt(string(m[len(`"Timestamp":`):]), 10, 64)
+						return []byte(`"Timestamp":` + strconv.FormatInt(n+p.Gen2Skew, 10))
+					})
+					sim.FS.Put(path, skewed)
+					res.Kinds["file-timestamps-skewed"]++
+				}
 				l := &fileAPI{proto: p.Proto}
 				l.load(path)
+				// a fresh cache that hears the same re-announcements: the loaded
+				// cache must decode the data that follows in the same way
+				fresh := &fileAPI{proto: p.Proto}
+				fresh.load("/none")
 				for i := range gen2ann {
 					d := &gen2ann[i]
 					l.decode(srcAddr(&p.Exporters[d.Exporter]).IP, append([]byte(nil), d.payload...))
+					fresh.decode(srcAddr(&p.Exporters[d.Exporter]).IP, append([]byte(nil), d.payload...))
 				}
 				ref2 := make([][]byte, len(gen2probes))
 				for i := range gen2probes {
 					d := &gen2probes[i]
 					_, ref2[i], _ = l.decode(srcAddr(&p.Exporters[d.Exporter]).IP, append([]byte(nil), d.payload...))
+					_, want, _ := fresh.decode(srcAddr(&p.Exporters[d.Exporter]).IP, append([]byte(nil), d.payload...))
+					if !bytes.Equal(ref2[i], want) {
+						find("reannouncement-after-load-not-applied", p.Proto, fmt.Sprintf("a cache loaded from its file (timestamps shifted by %d s) hears a template announced again and decodes data for it differently from a cache that only heard that announcement (probe %d):\n got %s\nwant %s", p.Gen2Skew, i, tail(string(ref2[i]), 240), tail(string(want), 240)))
+					}
 				}
 				if err := l.dump(path); err != nil {
 					find("dump-error", "second generation", err.Error())
@@ -635,6 +660,9 @@ func genFilePlan(seed int64, tier string) *FilePlan {
 			}
 		}
 	}
+	if len(p.Gen2Announce) > 0 && r.Intn(3) == 0 {
+		p.Gen2Skew = []int64{3600, -3600, 86400 * 400, 5, -86400}[r.Intn(5)]
+	}
 	if r.Intn(3) == 0 {
 		p.AgeSec = []int64{1, 3600, 7300, 90000, 40 * 86400, 400 * 86400}[r.Intn(6)]
 	}
@@ -719,7 +747,19 @@ func nf9Msg(seq uint32, sets ...[]byte) []byte {
 }
 
 func genFileFor(prop, tier string, seed int64) []byte {
-	b, _ := json.Marshal(genFilePlan(seed, tier))
+	p := genFilePlan(seed, tier)
+	if prop != "C11" {
+		// the other properties are interested in the generations, not in the
+		// crash points and corruptions of the file
+		p.Bulk, p.BulkFields, p.AllPrefixes = 0, 0, false
+		if len(p.Prefixes) > 4 {
+			p.Prefixes = p.Prefixes[:4]
+		}
+		if len(p.Corrupt) > 3 {
+			p.Corrupt = p.Corrupt[:3]
+		}
+	}
+	b, _ := json.Marshal(p)
 	return b
 }
 
@@ -841,4 +881,10 @@ func shrinkFile(planJSON []byte) [][]byte {
 
 var scFile = defScenario(&Scenario{Name: "cachefile", Gen: genFileFor, Exec: execCacheFile, Shrink: shrinkFile})
 
-func init() { register("C11", scFile, 10) }
+func init() {
+	register("C11", scFile, 10)
+	// the second generation (re-announcements heard by a cache loaded from its
+	// file) is a "latest template" history as well
+	register("C04", scFile, 1)
+	register("C10", scFile, 1)
+}
